@@ -283,7 +283,7 @@ theorem C03_full : Statement denoteG :=
   fun mode tys q t out hs hl h => C03_denote_sound mode tys q t out hs hl h
 
 /-- on plans without a custom trigger the engine (`denoteGT`) is that pipeline -/
-theorem C03_partial (mode : Mode) (tys : List Ty) (q : GQuery) (t out : List Row) (hq : q.simple = true)
+theorem C03_engine_on_simple_plans (mode : Mode) (tys : List Ty) (q : GQuery) (t out : List Row) (hq : q.simple = true)
     (hs : GSide tys q t) (hl : q.hasLimit0 = false) (h : denoteGT mode tys q t = .ok out) :
     GQueryResult tys q t out := by
   simp only [denoteGT, hq, if_true] at h
@@ -317,5 +317,19 @@ example : ∃ aggs, typecheckGroup tys2 .table (match q1 with | .group _ g => g 
     evalsOk [.col 0] aggs tbl = true := by
   refine ⟨_, rfl, ?_⟩
   decide
+
+/-- the side conditions of `C03_full` hold for it: no float sums, no ORDER BY keys -/
+example : GSide tys2 q1 tbl := by
+  refine ⟨trivial, ?_, ?_⟩
+  · intro aggs r0 h1 _ p hp r _ v _
+    have e : typecheckGroup tys2 .table (match q1 with | .group _ g => g | _ => default) =
+        some [⟨.count, false, .col 1, none⟩, ⟨.sumInt, false, .col 1, none⟩, ⟨.avgInt, false, .col 1, none⟩,
+              ⟨.array, false, .col 1, none⟩, ⟨.count, false, .lit (.bool true), none⟩] := by rfl
+    have h1' := e.symm.trans h1
+    cases h1'
+    simp only [List.mem_cons, List.not_mem_nil, or_false] at hp
+    rcases hp with rfl | rfl | rfl | rfl | rfl <;> trivial
+  · intro grouped c _ r _
+    rfl
 
 end Octo.C03
